@@ -174,7 +174,15 @@ class _C0:
     pass
 
 
-_CLS = [_C0, _C1, _C2, _C3]
+@dataclass
+class _C4:
+    c0: object = 0
+    c1: object = 1
+    c2: object = 2
+    c3: object = 3
+
+
+_CLS = [_C0, _C1, _C2, _C3, _C4]
 
 
 def _codes_ok(values) -> bool:
@@ -235,6 +243,23 @@ def check_discrete_accept_iff_kinds3(i: Tuple[bool, bool], j: Tuple[bool, bool],
     """
     try:
         DiscreteGrid(_mk([NPOOL[_num(i)], NPOOL[_num(j)], NPOOL[_num(k)]]))
+    except GridInitializationError:
+        return False
+    return True
+
+
+MPOOL = [None, "a", 0, 1]
+
+
+def check_discrete_accept_iff_kinds4(i: Tuple[bool, bool], j: Tuple[bool, bool], k: Tuple[bool, bool], l: Tuple[bool, bool]) -> bool:
+    """
+    four fields with values None / str / 0 / 1: includes classes with SEVERAL duplicated values of
+    kinds that cannot be ordered or compared numerically (None+None+0+0, "a"+"a"+1+1, ...): never valid,
+    and always rejected with the grid initialization error (no other exception)
+    post: _ is False
+    """
+    try:
+        DiscreteGrid(_mk([MPOOL[_num(i)], MPOOL[_num(j)], MPOOL[_num(k)], MPOOL[_num(l)]]))
     except GridInitializationError:
         return False
     return True
